@@ -222,6 +222,20 @@ class Machine:
             o = cls([a, b, c])
         elif form == 'kw':
             o = cls(**{names[0]: a, names[1]: b, names[2]: c})
+        elif form == 'short':
+            # every sequence type x every length 0..3, the missing components supplied through the 2nd/3rd constructor
+            # argument (positionally or by keyword); whatever the input form, the result is subject to the same invariant
+            k = extra % 4
+            items = [a, b, c][:k]
+            how = (extra // 4) % 3
+            seq = tuple(items) if how == 0 else (list(items) if how == 1 else iter(items))
+            self.ctx.label(f'ctor_short:{cls_name}:{("tuple", "list", "iter")[how]}:{k}')
+            if extra % 2:
+                o = cls(seq, b, c)
+            else:
+                o = cls(seq, **{names[1]: b, names[2]: c})
+        elif form == 'obj_fallback':
+            o = cls(self.pick(extra, src_kinds).obj, b, c)
         elif form == 'obj':
             o = cls(self.pick(extra, src_kinds).obj)
         elif form == 'str':
@@ -605,6 +619,65 @@ class Machine:
             self.ctx.label(f'{done}_again_after_{name}', f'cycle:{kind}:{name}')
         return e
 
+    POKES = {
+        'FrozenVec': ('setattr', 'setitem_index', 'setitem_name', 'aug_item', 'delattr', 'delitem', 'ifloordiv', 'imod', 'isub_tuple'),
+        'FrozenAngle': ('setattr', 'setitem_index', 'setitem_name', 'aug_item', 'delattr', 'delitem', 'imul_int'),
+        'FrozenMatrix': ('setitem_pair', 'aug_item', 'delitem', 'imatmul'),
+    }
+
+    def c_poke(self, kind, i, proto, comp, n):
+        """Try to modify a frozen object through a public mutating protocol (attribute / item assignment, deletion,
+        augmented assignment).  Refusing with TypeError/AttributeError is fine; succeeding silently is fine only if the
+        observable value stays put (the ``frozen`` invariant that follows) - an augmented operator may rebind to a NEW object."""
+        e = self.pick(i, (kind,), small=True)
+        o = e.obj
+        protos = self.POKES[kind]
+        name = protos[proto % len(protos)]
+        x = self.num(n)
+        vec, ang = kind == 'FrozenVec', kind == 'FrozenAngle'
+        attr = ('xyz' if vec else ('pitch', 'yaw', 'roll'))[comp % 3]
+        if kind == 'FrozenMatrix':
+            key = (comp % 3, (comp // 3) % 3)
+        elif name == 'setitem_name':
+            key = attr if vec else ('pitch', 'yaw', 'roll', 'p', 'y', 'r', 'pit', 'rol')[comp % 8]
+        else:
+            key = comp % 3
+        self.ctx.label(f'poke:{kind}:{name}')
+        res = None
+        try:
+            if name == 'setattr':
+                setattr(o, attr, x)
+            elif name in ('setitem_index', 'setitem_name', 'setitem_pair'):
+                o[key] = x
+            elif name == 'aug_item':
+                o[key] += x
+            elif name == 'delattr':
+                delattr(o, attr)
+            elif name == 'delitem':
+                del o[key]
+            elif name == 'ifloordiv':
+                if abs(x) < 1e-30:
+                    raise Skip('zero_divisor')
+                res = operator.ifloordiv(o, x)
+            elif name == 'imod':
+                if abs(x) < 1e-30:
+                    raise Skip('zero_divisor')
+                res = operator.imod(o, x)
+            elif name == 'isub_tuple':
+                res = operator.isub(o, (x, 0.0, -x))
+            elif name == 'imul_int':
+                res = operator.imul(o, int(x) % 7 - 3)
+            elif name == 'imatmul':
+                res = operator.imatmul(o, self.pick(comp, ROT_K, small=True).obj)
+            else:
+                raise AssertionError(name)
+        except (TypeError, AttributeError):
+            self.ctx.label('poke_refused')
+            return None
+        if res is not None and res is not o:
+            self.add(res, clause_ctx='augmented operator on a frozen object')
+        return None
+
     def c_fmt(self, n):
         """format_float on a number of the history (text mode checks it; otherwise just exercise it)."""
         x = self.num(n)
@@ -804,7 +877,8 @@ SMALL = st.integers(0, 11)
 
 
 def cmd_ctor(num):
-    vec_forms = st.sampled_from(['xyz', 'xyz', 'iter', 'list', 'kw', 'obj', 'str', 'strobj', 'axes', 'axes_obj', 'default'])
+    vec_forms = st.sampled_from(['xyz', 'xyz', 'iter', 'list', 'kw', 'obj', 'str', 'strobj', 'axes', 'axes_obj', 'default',
+                                 'short', 'short', 'short', 'obj_fallback'])
     mat_forms = st.sampled_from(['ident', 'from_angle3', 'from_angle3', 'from_angle_obj', 'from_pitch', 'from_yaw', 'from_roll',
                                  'axis_angle', 'from_basis', 'ctor', 'angstr'])
     return st.one_of(
@@ -841,6 +915,9 @@ def cmd_any(num):
         rnd = st.tuples(SMALL, SMALL, num, IDX, mut_copies)
         return st.tuples(st.just('cycle'), st.sampled_from(MUT_K + ('Matrix',)), IDX, mut_copies, st.lists(rnd, min_size=1, max_size=3))
 
+    def poke():
+        return st.tuples(st.just('poke'), st.sampled_from(FROZEN_K), IDX, SMALL, SMALL, num)
+
     def transform():
         step = st.one_of(st.tuples(rk, IDX), st.tuples(rk, IDX), st.tuples(st.just('freeze'), st.just(0)),
                          st.tuples(st.just('set'), SMALL, num))
@@ -859,6 +936,7 @@ def cmd_any(num):
         transform(), transform(),
         cycle(), cycle(), cycle(), cycle(),
         vop(), vop(),
+        poke(), poke(), poke(),
         st.tuples(st.just('localise'), IDX, IDX, st.one_of(st.none(), rk), IDX, b),
         st.tuples(st.just('mat1'), st.sampled_from(['transpose', 'inverse']), mk, IDX),
         st.tuples(st.just('ang_basis'), ak, IDX, IDX, SMALL),
@@ -942,7 +1020,7 @@ def exec_fmt(desc, ctx):
 # ------------------------------------------------------------------ registration
 
 _OPS = ('op:vec', 'op:ang', 'op:mat', 'op:to_angle', 'op:vec_to_angle', 'op:ang_basis', 'op:dir', 'op:set', 'op:vop', 'op:unary',
-        'op:cross', 'op:amul', 'op:matmul', 'op:transform', 'op:cycle', 'op:localise', 'op:minmax', 'op:mat1', 'op:copy', 'op:fmt')
+        'op:cross', 'op:amul', 'op:matmul', 'op:transform', 'op:cycle', 'op:poke', 'op:localise', 'op:minmax', 'op:mat1', 'op:copy', 'op:fmt')
 _MATMUL = tuple(f'{f}:{l}@{r}' for f in ('matmul', 'imatmul') for l in ALL_K + ('tuple',) for r in ROT_K)
 _COPIES = tuple(f'copy:{h}:{k}' for h in ('copy', 'copy.copy', 'deepcopy', 'pickle2', 'pickle5', 'ctor_same', 'ctor_twin') for k in ALL_K) \
     + tuple(f'copy:freeze:{k}' for k in MUT_K) + tuple(f'copy:thaw:{k}' for k in FROZEN_K)
@@ -952,12 +1030,15 @@ _CYCLES = ('freeze_again_after_setitem', 'freeze_again_after_imatmul', 'copy_aga
            'transform_block:freeze_again_after_setitem') \
     + tuple(f'cycle:{k}:{m}' for k, ms in Machine.MUTATORS.items() for m in ms)
 
+_POKES = tuple(f'poke:{k}:{p}' for k, ps in Machine.POKES.items() for p in ps)
+_SHORT = tuple(f'ctor_short:{k}:{t}:{n}' for k in ANG_K for t in ('tuple', 'list', 'iter') for n in range(4))
+
 SUBCHECKS = [
     Sub('range', exec_range, strategy=history_strategy, quick=8000, thorough=160000, quick_shards=8, floor=300,
         must_hit=_OPS + ('has_angle', 'num:fed_back', 'to_angle:Matrix', 'to_angle:FrozenMatrix', 'transform:Angle',
-                         'amul:Angle:imul', 'set:Angle', 'ang_from_basis:Angle', 'ang_from_basis:FrozenAngle')
+                         'amul:Angle:imul', 'set:Angle', 'ang_from_basis:Angle', 'ang_from_basis:FrozenAngle') + _SHORT
         + tuple(f'{f}:{l}@{r}' for f in ('matmul', 'imatmul') for l in ANG_K for r in ROT_K)),
-    Sub('frozen', exec_frozen, strategy=history_strategy, quick=8000, thorough=160000, quick_shards=8, floor=300, must_hit=_OPS + _MATMUL),
+    Sub('frozen', exec_frozen, strategy=history_strategy, quick=8000, thorough=160000, quick_shards=8, floor=300, must_hit=_OPS + _MATMUL + _POKES),
     Sub('copies', exec_copies, strategy=history_strategy, quick=8000, thorough=160000, quick_shards=8, floor=300, must_hit=_OPS + _COPIES + _CYCLES),
     Sub('text', exec_text, strategy=history_strategy_text, quick=5000, thorough=100000, quick_shards=8, floor=200,
         must_hit=_OPS + ('text:normal', 'text:big')),
